@@ -31,6 +31,12 @@ func init() {
 					ts = append(ts, Task{Func: "VerifC17Rotate", Args: ints(w, h, 1, 0, w-2, h-1), Note: "rotation of a cropped non-square view"})
 				}
 			}
+			// planar YUV: sub-rectangles of the plane, horizontal mirroring, rectangles outside the plane
+			for _, a := range [][6]int64{{4, 4, 1, 1, 2, 2}, {6, 4, 2, 1, 3, 2}, {4, 4, 0, 0, 4, 4}, {5, 3, 0, 1, 5, 2}, {3, 5, 1, 0, 2, 5}, {4, 2, 3, 0, 2, 2}, {4, 4, -1, 0, 2, 2}, {4, 4, 1, 3, 2, 2}, {2, 2, 0, 0, 1, 1}} {
+				for rev := int64(0); rev <= 1; rev++ {
+					ts = append(ts, Task{Func: "VerifC17YUV", Args: ints(a[0], a[1], a[2], a[3], a[4], a[5], rev), Note: "plane dw x dh (free bytes, chroma appended), rectangle l, t, w, h, mirrored?: rows, matrix and every crop against the model; constructor refuses rectangles outside the plane"})
+				}
+			}
 			// (c) luminance from colour
 			ts = append(ts, Task{Func: "VerifC17FromPixels", Args: ints(3, 2), Note: "free 32-bit pixels: (r+2g+b)/4, greys exact"})
 			for kind := int64(0); kind <= 2; kind++ {
@@ -63,6 +69,7 @@ func init() {
 		},
 		Bounds: func(tier string) map[string]interface{} {
 			return map[string]interface{}{
+				"yuv":        "planar-YUV planes of up to 6x4 free bytes with sub-rectangle views, mirrored or not, and rectangles outside the plane",
 				"views":      "RGB, planar-YUV and Go-image sources of 1x1 .. 4x3 / 2x5 (thorough up to 7x4) pixels, every pixel a free byte; every crop rectangle with origin in [-2,w]x[-2,h] and size in [1,w+2]x[1,h+2], on the full image and on views that are themselves crops; invert, double invert, crop of inverted; four quarter turns of full and cropped Go-image views; GetMatrix and every GetRow (incl. one row outside on each side) compared with a naive 2-D model. Decided by the term layer: pixel terms are compared as hash-consed terms, so an obligation that discharges holds for every pixel value",
 				"colour":     "NewRGBLuminanceSource on 3x2 free 32-bit pixels; NewLuminanceSourceFromImage on 2x2 Gray/NRGBA/RGBA images with non-zero bounds origin, free grey level, alpha 0 or 255",
 				"global":     "bilevel images of up to 16 (thorough 30) free pixels through GetBlackMatrix of both binarisers; rows of up to 16 (20) free pixels through GetBlackRow with fresh and dirty buffers",
